@@ -398,7 +398,7 @@ func spec(pre *Doc, o *Op, t0, t1 int64, maxDoc int) Expect {
 		}
 		p := Doc{Present: true, Body: nil, Rev: pre.Rev + 1, X: mergeX(pre.X, nil, o.XDel), Exp: pre.Exp}
 		ex := Expect{Accept: 1, Post: p, NewCas: 1, Event: 1, ExpLo: pre.Exp, ExpHi: pre.Exp}
-		ex.DCExp = true // whether this delete keeps or clears the expiry is not pinned (§3.7)
+		ex.Post.Exp, ex.ExpLo, ex.ExpHi = 0, 0, 0 // a delete clears the expiry (P C14 "cleared by delete")
 		if pre.Live() {
 			ex.DCUserX = true // §3.7
 		}
